@@ -25,7 +25,7 @@ PROPS = {
             "trusted_base": [ASTRO_TB]},
     "C07": {"lean_target": ["Props.C07", "Props.Purity", "Props.FnC07"], "gens": ["gen-box", "gen-civil"], "searches": ["search-C07"],
             "trusted_base": [ASTRO_TB, FLOAT_TB]},
-    "C08": {"lean_target": ["Props.C08", "Props.Purity", "Props.FnSC08", "Props.AstroBase"], "gens": ["gen-alm", "gen-ec", "gen-terms", "gen-week"], "searches": ["search-C08"],
+    "C08": {"lean_target": ["Props.C08", "Props.Purity", "Props.FnSC08", "Props.AstroBase", "Props.FnC04", "Props.FnC05", "Props.FnC12", "Props.FnC13", "Props.FnC15", "Props.FnC16", "Props.FnC17"], "gens": ["gen-alm", "gen-ec", "gen-terms", "gen-week"], "searches": ["search-C08"],
             "trusted_base": [ASTRO_TB, STD_TB],
             "open_obligations": ["accessors outside the modelled set are covered by the reflection sweep of search-C08 only (counted in search_stats.methods)"]},
     "C09": {"lean_target": ["Props.C09", "Props.Purity"], "gens": [], "searches": ["search-C09"],
